@@ -24,6 +24,9 @@ GUARD = "PYTHON_MYPY_VERIF"
 NCPU = int(os.environ.get("VERIF_JOBS", str(os.cpu_count() or 4)))
 
 
+CORE_SEED = 0   # seed of the seed-independent core workloads (see DESIGN.md 2.9)
+
+
 def seed() -> int:
     try:
         return int(os.environ.get("VERIF_SEED", "0"))
@@ -108,6 +111,7 @@ class Ctx:
         self.inconclusive: dict[str, int] = {}
         self.violations: list[dict[str, Any]] = []
         self.known_hits: dict[str, dict[str, Any]] = {}
+        self.collected: list[dict[str, Any]] = []
         self.floor_nontrivial = 2
         self.floor_evaluations = 1
         self.exhaustive: bool | None = None
@@ -133,14 +137,21 @@ class Ctx:
         self.inconclusive[why] = self.inconclusive.get(why, 0) + n
 
     # --- verdicts ---------------------------------------------------------
-    def violation(self, key: str, what: str, witness: dict[str, Any]) -> None:
-        """Report a refuting observation. `key` is the mechanism key (never a case hash)."""
+    def violation(self, key: str, what: str, witness: dict[str, Any], case: str | None = None) -> None:
+        """Report a refuting observation. `key` is the mechanism key (classifier output, never a random value).
+        `case` optionally names the deterministic input/history (+step) that fails: a known finding may be listed
+        for specific cases only, so that the same mechanism failing on ANOTHER input is still reported."""
         kf = self._kf.get(key)
-        if kf is not None and kf.get("status") == "open":
-            hit = self.known_hits.setdefault(key, {"what": kf.get("what_fails", what), "n": 0,
-                                                   "example": witness})
+        if kf is not None and kf.get("status") == "open" and (kf.get("cases") is None or (case is not None and case in kf["cases"])):
+            hit = self.known_hits.setdefault(key, {"what": kf.get("what_fails", what), "n": 0, "example": witness})
             hit["n"] += 1
+            if os.environ.get("VERIF_COLLECT"):
+                self.collected.append({"key": key, "case": case, "what": what[:300], "known": True})
             return
+        if os.environ.get("VERIF_COLLECT"):
+            self.collected.append({"key": key, "case": case, "what": what[:300], "known": False})
+        witness = dict(witness)
+        witness["case_id"] = case
         self.violations.append({"key": key, "what": what, "witness": witness})
 
     def finish(self) -> int:
@@ -195,6 +206,11 @@ class Ctx:
             "verdict": {0: "held-on-observed", 1: "violated", 2: "inconclusive"}[rc],
             "repo": REPO,
         }
+        if os.environ.get("VERIF_COLLECT"):
+            # offline triage aid (never used by a registered command): every violation with its key and case id
+            with open(os.environ["VERIF_COLLECT"], "a") as f:
+                for c in self.collected:
+                    f.write(json.dumps({"property": self.pid, "seed": self.seed, "tier": self.tier, **c}) + "\n")
         os.makedirs(os.path.join(VERIF, "evidence"), exist_ok=True)
         tmp = os.path.join(VERIF, "evidence", f".{self.pid}.json.tmp")
         with open(tmp, "w") as f:
